@@ -125,7 +125,7 @@ def _run_history(hist):
         state['overlap'] = 'accepted (the second execute() did not return)'
         th = threading.Thread(target=second, name='second-execute', daemon=True)
         th.start()
-        th.join(20)
+        th.join(5)
       if i in state['cur']['raises']:
         raise CbError('callback %d raises' % i)
     return cb
@@ -199,6 +199,8 @@ def _work(args):
   hists = tlaval.parse_many(text, 'HIST')
   out = dict(n=0, bad=[], sample=None, nontrivial=0)
   for (h,) in hists:
+    if len(out['bad']) >= 6:
+      break       # enough violations from this chunk: do not spend the budget on the rest of it
     for c in h:
       c['raises'] = set(c['raises'])
     use_sched = any(c['path'] in NEEDS_SCHED for c in h)
